@@ -4,6 +4,7 @@ import (
 	"bytes"
 	"fmt"
 	"sync"
+	"sync/atomic"
 	"time"
 
 	"verifharness/lab"
@@ -143,6 +144,52 @@ func c02Run(c *vk.Ctx) {
 	}
 	close(work)
 	wg.Wait()
+	smu.Lock()
+	stopped := stop
+	smu.Unlock()
+	// handshake storm: many short connections whose handshakes overlap (32 at a time) - whatever
+	// one connection's key search buffers must stay its own until its stream has consumed it
+	if !stopped {
+		storm := make([]relayCase, c.N(1200, 4000))
+		for i := range storm {
+			rc := genRelayCase(r, c.Batch, keys, false)
+			rc.UpLen, rc.DownLen = r.Intn(300), r.Intn(300)
+			rc.SlowMs, rc.SlowRead, rc.PauseMs, rc.CloseLn, rc.TailAfter = 0, 0, 0, false, 0
+			if rc.AddrType == 3 {
+				rc.AddrType, rc.ShortName, rc.DomainFam = 1, "", ""
+			}
+			storm[i] = rc
+		}
+		var swg sync.WaitGroup
+		swork := make(chan int)
+		var sbad atomic.Bool
+		for w := 0; w < 32; w++ {
+			swg.Add(1)
+			wr := c.SubRng("c02storm", w)
+			go func() {
+				defer swg.Done()
+				for i := range swork {
+					if sbad.Load() {
+						continue
+					}
+					rc := storm[i]
+					o := runRelayCase(env, wr, rc)
+					if judgeRelay(c, "C02", rc, o) {
+						c.Count("storm_exchanges_intact", 1)
+					} else {
+						sbad.Store(true)
+					}
+				}
+			}()
+		}
+		c.Progress("C02 handshake storm: %d short exchanges, 32 at a time", len(storm))
+		for i := range storm {
+			swork <- i
+		}
+		close(swork)
+		swg.Wait()
+		c.Eval("storm|32-overlapping-handshakes")
+	}
 	if u := env.Hub.UnexpectedList(); len(u) > 0 {
 		c.Violation("C02/unexpected-target-connection", u[:min(len(u), 5)])
 	}
@@ -166,6 +213,7 @@ func init() {
 			c.Require("domain_targets")
 			c.Require("slow_exchanges_longer_than_handshake_timeout")
 			c.Require("relays_outliving_their_listener")
+			c.Require("storm_exchanges_intact")
 			c02Run(c)
 		},
 	})
